@@ -136,8 +136,14 @@ def netlists(
             if src[1] in types:
                 ops = list(src[2])
                 # (for the order-sensitive two-operand types the swapped twin is the interesting near duplicate)
-                variant = draw(st.sampled_from(['same', 'rotate', 'repeat_operand', 'drop_operand'] if src[1] in NARY
-                                               else ['same', 'rotate', 'rotate']))
+                variant = draw(st.sampled_from(['same', 'rotate', 'repeat_operand', 'drop_operand', 'retype'] if src[1] in NARY
+                                               else ['same', 'rotate', 'rotate', 'retype']))
+                if variant == 'retype' and len(ops) == 2:
+                    # the same ordered operand pair under another two-operand type
+                    others = [t for t in types if (t in NARY or t in FIXED) and t != src[1]]
+                    if others:
+                        gates.append([labels[k], draw(st.sampled_from(others)), ops])
+                        continue
                 if variant == 'rotate' and len(ops) >= 2:
                     ops = ops[1:] + ops[:1]
                 elif variant == 'repeat_operand' and src[1] in NARY and len(ops) < max_arity:
